@@ -32,7 +32,8 @@ Ten == 1..NT
 Ops == 1..NO
 
 NoArr == [alive |-> FALSE, owner |-> 0, w |-> TRUE, w0 |-> TRUE, held |-> FALSE, touched |-> FALSE]
-NoTen == [alive |-> FALSE, arr |-> 0, creator |-> 0, base |-> 0, held |-> FALSE]
+\* reg : the tensor is listed among its parent's registered views (`_view_children`); a clear_graph empties that list
+NoTen == [alive |-> FALSE, arr |-> 0, creator |-> 0, base |-> 0, held |-> FALSE, reg |-> FALSE]
 \* unreg : input tensors whose consumer list (`_ops`) no longer names this operation (a clear_graph emptied it)
 NoOp  == [alive |-> FALSE, vars |-> <<>>, out |-> 0, refs |-> <<>>, guarded |-> FALSE, unreg |-> {}]
 
@@ -122,7 +123,8 @@ Collect(x) ==
          \* drop the creator reference; the array stays alive through this pseudo-hold until the op is finalised
          x1 == [x EXCEPT !.ten[t].creator = 0, !.ten[t].held = TRUE]
          x2 == IF o # 0 /\ ~OpReferenced(x1, o) THEN Finalize(x1, o) ELSE x1
-     IN Collect([x2 EXCEPT !.ten[t] = NoTen])
+     IN Collect([x2 EXCEPT !.ten[t] = NoTen,
+                          !.op = [o2 \in Ops |-> IF @[o2].alive THEN [@[o2] EXCEPT !.unreg = @ \ {t}] ELSE @[o2]]])
   ELSE
   LET deadO == {o \in Ops : x.op[o].alive /\ ~OpReferenced(x, o)} IN
   IF deadO # {} THEN Collect(Finalize(x, Pick(deadO)))
@@ -146,7 +148,7 @@ NpView(x, b) == LET a == Pick(FreeA(x))
 Freeze(x, a) == [x EXCEPT !.arr[a].w = FALSE, !.arr[a].w0 = FALSE]
 \* mg.tensor(a, copy=False): a tensor over the user's array
 Wrap(x, a) == LET t == Pick(FreeT(x)) IN
-  [x EXCEPT !.ten[t] = [alive |-> TRUE, arr |-> a, creator |-> 0, base |-> 0, held |-> TRUE]]
+  [x EXCEPT !.ten[t] = [alive |-> TRUE, arr |-> a, creator |-> 0, base |-> 0, held |-> TRUE, reg |-> FALSE]]
 
 \* operands: <<"t", tensor>> or <<"a", array>> (a bare array is wrapped in a constant tensor owned by the op)
 RECURSIVE WrapOperands(_, _, _)
@@ -155,18 +157,22 @@ WrapOperands(x, opnds, acc) ==
   LET h == Head(opnds) IN
   IF h[1] = "t" THEN WrapOperands(x, Tail(opnds), Append(acc, h[2]))
   ELSE LET t == Pick(FreeT(x))
-           x1 == [x EXCEPT !.ten[t] = [alive |-> TRUE, arr |-> h[2], creator |-> 0, base |-> 0, held |-> FALSE]]
+           x1 == [x EXCEPT !.ten[t] = [alive |-> TRUE, arr |-> h[2], creator |-> 0, base |-> 0, held |-> FALSE, reg |-> FALSE]]
        IN WrapOperands(x1, Tail(opnds), Append(acc, t))
 
+\* an input that is a disconnected view (its graph was cleared, its base lingers) forgets its base when it is used
+DetachStale(x, ts) ==
+  [x EXCEPT !.ten = [u \in Ten |-> IF (\E i \in 1..Len(ts) : ts[i] = u) /\ @[u].alive /\ @[u].base # 0 /\ @[u].creator = 0
+                                   THEN [@[u] EXCEPT !.base = 0, !.reg = FALSE] ELSE @[u]]]
 \* a non-view operation (Tensor._op): result owns a fresh array
 DoOp(x, opnds) ==
   LET w == WrapOperands(x, opnds, <<>>)
-      x0 == w.x ts == w.ts
+      x0 == DetachStale(w.x, w.ts) ts == w.ts
       refs0 == IF x.guard THEN UAB(x0, ts, {}) ELSE <<>>
       x1 == LockAll(x0, refs0)
       o == Pick(FreeO(x1)) out == Pick(FreeA(x1)) t == Pick(FreeT(x1))
       x2 == [x1 EXCEPT !.arr[out] = [alive |-> TRUE, owner |-> 0, w |-> TRUE, w0 |-> TRUE, held |-> FALSE, touched |-> TRUE],
-                        !.ten[t] = [alive |-> TRUE, arr |-> out, creator |-> o, base |-> 0, held |-> TRUE]]
+                        !.ten[t] = [alive |-> TRUE, arr |-> out, creator |-> o, base |-> 0, held |-> TRUE, reg |-> FALSE]]
       x3 == IF x.guard THEN Lock(x2, out, FALSE) ELSE x2
   IN [x3 EXCEPT !.op[o] = [alive |-> TRUE, vars |-> ts, out |-> t,
                            refs |-> IF x.guard THEN Append(refs0, out) ELSE <<>>, guarded |-> x.guard, unreg |-> {}]]
@@ -175,12 +181,12 @@ DoOp(x, opnds) ==
 \* user's array itself; the array (and its base, if it is a view) is locked like any output.
 DoOpOut(x, opnds, outa) ==
   LET w == WrapOperands(x, opnds, <<>>)
-      x0 == w.x ts == w.ts
+      x0 == DetachStale(w.x, w.ts) ts == w.ts
       refs0 == IF x.guard THEN UAB(x0, ts, {}) ELSE <<>>
       x1 == LockAll(x0, refs0)
       o == Pick(FreeO(x1)) t == Pick(FreeT(x1))
       own == x1.arr[outa].owner
-      x2 == [x1 EXCEPT !.ten[t] = [alive |-> TRUE, arr |-> outa, creator |-> o, base |-> 0, held |-> TRUE],
+      x2 == [x1 EXCEPT !.ten[t] = [alive |-> TRUE, arr |-> outa, creator |-> o, base |-> 0, held |-> TRUE, reg |-> FALSE],
                         !.arr[outa].touched = TRUE]
       x3 == IF x.guard /\ own # 0 THEN [Lock(x2, own, FALSE) EXCEPT !.arr[own].touched = TRUE] ELSE x2
       x4 == IF x.guard THEN Lock(x3, outa, FALSE) ELSE x3
@@ -199,11 +205,11 @@ InPlace(x, t, opnd) ==
       \* the mutated copy is writeable iff the original is, or is merely locked by MyGrad
       mutw == x.arr[a0].w \/ Tracked(x, a0)
       w == WrapOperands(x, <<opnd>>, <<>>)
-      x0 == w.x vt == w.ts[1]
+      x0 == IF mutw THEN DetachStale(w.x, w.ts) ELSE w.x vt == w.ts[1]
   IN IF ~mutw THEN Collect(x0)          \* natively read-only target: the update raises, nothing changes
      ELSE
      LET pt == Pick(FreeT(x0))
-         x1 == [x0 EXCEPT !.ten[pt] = [alive |-> TRUE, arr |-> a0, creator |-> x0.ten[t].creator, base |-> 0, held |-> FALSE],
+         x1 == [x0 EXCEPT !.ten[pt] = [alive |-> TRUE, arr |-> a0, creator |-> x0.ten[t].creator, base |-> 0, held |-> FALSE, reg |-> FALSE],
                           \* only the consumers still LISTED by t are re-routed to the placeholder.  KNOWN FINDING F-C09-1:
                           \* an operation recorded before a clear_graph emptied t's consumer list keeps pointing at t
                           !.op = [o \in Ops |-> IF @[o].alive /\ t \notin @[o].unreg
@@ -214,16 +220,110 @@ InPlace(x, t, opnd) ==
          a1 == Pick(FreeA(x1)) o == Pick(FreeO(x1))
          vars2 == <<pt, IF vt = t THEN pt ELSE vt>>
          x2 == [x1 EXCEPT !.arr[a1] = [alive |-> TRUE, owner |-> 0, w |-> TRUE, w0 |-> TRUE, held |-> FALSE, touched |-> TRUE],
-                          !.ten[t] = [alive |-> TRUE, arr |-> a1, creator |-> o, base |-> 0, held |-> TRUE]]
+                          !.ten[t] = [alive |-> TRUE, arr |-> a1, creator |-> o, base |-> 0, held |-> TRUE, reg |-> FALSE]]
          refs0 == IF x.guard THEN UAB(x2, vars2, {}) ELSE <<>>
          x3 == LockAll(x2, refs0)
          x4 == IF x.guard THEN Lock(x3, a1, TRUE) ELSE x3
      IN Collect([x4 EXCEPT !.op[o] = [alive |-> TRUE, vars |-> vars2, out |-> t,
                                       refs |-> IF x.guard THEN Append(refs0, a1) ELSE <<>>, guarded |-> x.guard, unreg |-> {}]])
 
+\* ------------------------------------------------------------------ in-place update inside a view family
+\* t[...] = value  where t is a base WITH registered views, or a registered view of its base (Tensor._in_place_op):
+\*  1. every member of the family (base b and its registered views) gets a placeholder that takes over its old array,
+\*     creator and (listed) consumers;
+\*  2. the base's memory is copied (A1); when the target is a view, the view chain is replayed on the copy without
+\*     tracking (V1) and the update writes into it;
+\*  3. the in-place operation O1 runs with the guard off; afterwards - if guarding is on - its inputs are locked and its
+\*     output array force-locked;
+\*  4. target is a view: UnView(placeholder of b, updated view) -> its output IS A1 (locked once more as an output);
+\*  5. every registered view is re-created from the (new) base: an ordinary view operation each.
+Children(x, b) == {c \in Ten : x.ten[c].alive /\ x.ten[c].base = b /\ x.ten[c].creator # 0 /\ x.ten[c].reg
+                               /\ x.op[x.ten[c].creator].vars = <<b>>}
+\* the statement is offered only when every live tensor whose base is b is a registered direct view of b or a stale one
+\* (views of views are outside this model's alphabet)
+FamilyOK(x, b) == \A v \in Ten : (x.ten[v].alive /\ x.ten[v].base = b /\ x.ten[v].creator # 0) => x.op[x.ten[v].creator].vars = <<b>>
+RECURSIVE MkPlaceholders(_, _, _)
+MkPlaceholders(x, todo, acc) ==     \* acc : tensor -> its placeholder
+  IF todo = <<>> THEN [x |-> x, ph |-> acc] ELSE
+  LET u == Head(todo) p == Pick(FreeT(x))
+      x1 == [x EXCEPT !.ten[p] = [alive |-> TRUE, arr |-> x.ten[u].arr, creator |-> x.ten[u].creator,
+                                  \* (a view's placeholder points at the PLACEHOLDER of the base)
+                                  base |-> IF x.ten[u].base = 0 THEN 0 ELSE acc[x.ten[u].base], held |-> FALSE, reg |-> FALSE]]
+  IN MkPlaceholders(x1, Tail(todo), acc @@ (u :> p))
+RECURSIVE Recreate(_, _, _)
+Recreate(x, b, todo) ==             \* the registered views, re-created from the new base: one view operation each
+  IF todo = <<>> THEN x ELSE
+  LET c == Head(todo)
+      refs0 == IF x.guard THEN UAB(x, <<b>>, {}) ELSE <<>>
+      x1 == LockAll(x, refs0)
+      pa == x.ten[b].arr
+      o == Pick(FreeO(x1)) out == Pick(FreeA(x1))
+      x2 == [x1 EXCEPT !.arr[out] = [alive |-> TRUE, owner |-> pa, w |-> x1.arr[pa].w, w0 |-> x1.arr[pa].w0,
+                                      held |-> FALSE, touched |-> TRUE],
+                        !.ten[c] = [alive |-> TRUE, arr |-> out, creator |-> o, base |-> b, held |-> x.ten[c].held, reg |-> TRUE]]
+      x3 == IF x.guard THEN Lock(x2, out, FALSE) ELSE x2
+  IN Recreate([x3 EXCEPT !.op[o] = [alive |-> TRUE, vars |-> <<b>>, out |-> c,
+                                    refs |-> IF x.guard THEN Append(refs0, out) ELSE <<>>, guarded |-> x.guard, unreg |-> {}]],
+              b, Tail(todo))
+InPlaceFam(x00, t, opnd) ==
+  \* a stale view (creator gone) detaches first and is then an owner of its own
+  LET x0a == IF x00.ten[t].base # 0 /\ x00.ten[t].creator = 0 THEN [x00 EXCEPT !.ten[t].base = 0] ELSE x00
+      b == IF x0a.ten[t].base = 0 THEN t ELSE x0a.ten[t].base
+      a0 == x0a.ten[b].arr
+      mutw == x0a.arr[a0].w \/ Tracked(x0a, a0)
+      w == WrapOperands(x0a, <<opnd>>, <<>>)
+      x0 == IF mutw THEN DetachStale(w.x, w.ts) ELSE w.x vt == w.ts[1]
+  IN IF ~mutw THEN Collect(x0) ELSE
+     LET C == Children(x0, b)
+         fam == <<b>> \o SetToSortSeq(C, <)
+         mk == MkPlaceholders(x0, fam, <<>>)
+         ph == mk.ph
+         missed == \E o \in Ops : x0.op[o].alive /\ \E i \in 1..Len(x0.op[o].vars) :
+                                     x0.op[o].vars[i] \in DOMAIN ph /\ x0.op[o].vars[i] \in x0.op[o].unreg
+         x1 == [mk.x EXCEPT !.op = [o \in Ops |-> IF @[o].alive
+                                      THEN [@[o] EXCEPT !.vars = [i \in 1..Len(@) |->
+                                              IF @[i] \in DOMAIN ph /\ @[i] \notin x0.op[o].unreg THEN ph[@[i]] ELSE @[i]]]
+                                      ELSE @[o]],
+                            !.kf9 = @ \/ missed]
+         Sub(u) == IF u \in DOMAIN ph THEN ph[u] ELSE u
+         a1 == Pick(FreeA(x1))
+         x2 == [x1 EXCEPT !.arr[a1] = [alive |-> TRUE, owner |-> 0, w |-> TRUE, w0 |-> TRUE, held |-> FALSE, touched |-> TRUE]]
+     IN IF t = b THEN
+          LET o1 == Pick(FreeO(x2))
+              vars1 == <<ph[b], Sub(vt)>>
+              x3 == [x2 EXCEPT !.ten[b] = [alive |-> TRUE, arr |-> a1, creator |-> o1, base |-> 0, held |-> x0.ten[b].held, reg |-> FALSE]]
+              refs0 == IF x0.guard THEN UAB(x3, vars1, {}) ELSE <<>>
+              x4 == LockAll(x3, refs0)
+              x5 == IF x0.guard THEN Lock(x4, a1, TRUE) ELSE x4
+              x6 == [x5 EXCEPT !.op[o1] = [alive |-> TRUE, vars |-> vars1, out |-> b,
+                                           refs |-> IF x0.guard THEN Append(refs0, a1) ELSE <<>>, guarded |-> x0.guard, unreg |-> {}]]
+          IN Collect(Recreate(x6, b, Tail(fam)))
+        ELSE
+          LET v1 == Pick(FreeA(x2))
+              x3 == [x2 EXCEPT !.arr[v1] = [alive |-> TRUE, owner |-> a1, w |-> TRUE, w0 |-> TRUE, held |-> FALSE, touched |-> TRUE]]
+              pmv == Pick(FreeT(x3)) o1 == Pick(FreeO(x3))
+              vars1 == <<ph[t], Sub(vt)>>
+              x4 == [x3 EXCEPT !.ten[pmv] = [alive |-> TRUE, arr |-> v1, creator |-> o1, base |-> 0, held |-> FALSE, reg |-> FALSE]]
+              refs0 == IF x0.guard THEN UAB(x4, vars1, {}) ELSE <<>>
+              x5 == LockAll(x4, refs0)
+              x6 == IF x0.guard THEN Lock(x5, v1, TRUE) ELSE x5
+              x7 == [x6 EXCEPT !.op[o1] = [alive |-> TRUE, vars |-> vars1, out |-> pmv,
+                                           refs |-> IF x0.guard THEN Append(refs0, v1) ELSE <<>>, guarded |-> x0.guard, unreg |-> {}]]
+              \* UnView: inputs = placeholder of the base and the updated view; its output array is A1 itself
+              o2 == Pick(FreeO(x7))
+              vars2 == <<ph[b], pmv>>
+              refs2 == IF x0.guard THEN UAB(x7, vars2, {}) ELSE <<>>
+              x8 == LockAll(x7, refs2)
+              x9 == IF x0.guard THEN Lock(x8, a1, FALSE) ELSE x8
+              x10 == [x9 EXCEPT !.ten[b] = [alive |-> TRUE, arr |-> a1, creator |-> o2, base |-> 0, held |-> x0.ten[b].held, reg |-> FALSE],
+                                !.op[o2] = [alive |-> TRUE, vars |-> vars2, out |-> b,
+                                            refs |-> IF x0.guard THEN Append(refs2, a1) ELSE <<>>, guarded |-> x0.guard, unreg |-> {}]]
+          IN Collect(Recreate(x10, b, Tail(fam)))
+
 \* a view operation on tensor p (basic indexing ...): the result's array is a NumPy view of p's array
-DoView(x, p) ==
+DoView(x00, p) ==
   LET ts == <<p>>
+      x == DetachStale(x00, ts)
       refs0 == IF x.guard THEN UAB(x, ts, {}) ELSE <<>>
       x1 == LockAll(x, refs0)
       pa == x.ten[p].arr
@@ -232,7 +332,7 @@ DoView(x, p) ==
       x2 == [x1 EXCEPT !.arr[out] = [alive |-> TRUE, owner |-> own, w |-> x1.arr[pa].w, w0 |-> x1.arr[own].w0,
                                       held |-> FALSE, touched |-> TRUE],
                         !.ten[t] = [alive |-> TRUE, arr |-> out, creator |-> o,
-                                    base |-> IF x.ten[p].base = 0 THEN p ELSE x.ten[p].base, held |-> TRUE]]
+                                    base |-> IF x.ten[p].base = 0 THEN p ELSE x.ten[p].base, held |-> TRUE, reg |-> TRUE]]
       x3 == IF x.guard THEN Lock(x2, out, FALSE) ELSE x2
   IN [x3 EXCEPT !.op[o] = [alive |-> TRUE, vars |-> ts, out |-> t,
                            refs |-> IF x.guard THEN Append(refs0, out) ELSE <<>>, guarded |-> x.guard, unreg |-> {}]]
@@ -244,12 +344,22 @@ FailOp(x, opnds) ==
   IN Collect(ReleaseAll(LockAll(w.x, refs0), refs0))
 
 \* clear_graph() from tensor t (also the tail of backward()): creators dropped upstream, recursively
-RECURSIVE Upstream(_, _)
-Upstream(x, t) == {t} \cup (IF x.ten[t].creator = 0 THEN {}
-                           ELSE UNION {Upstream(x, x.op[x.ten[t].creator].vars[i]) : i \in 1..Len(x.op[x.ten[t].creator].vars)})
+\* (clear_graph drops a tensor's creator BEFORE it recurses, so a cycle - possible once F-C09-1 has been triggered -
+\*  does not trap it)
+RECURSIVE UpstreamV(_, _, _)
+UpstreamV(x, todo, seen) ==
+  IF todo = {} THEN seen ELSE
+  LET t == CHOOSE u \in todo : TRUE
+      nxt == IF x.ten[t].creator = 0 THEN {}
+             ELSE {x.op[x.ten[t].creator].vars[i] : i \in 1..Len(x.op[x.ten[t].creator].vars)}
+  IN UpstreamV(x, (todo \cup nxt) \ (seen \cup {t}), seen \cup {t})
+Upstream(x, t) == UpstreamV(x, {t}, {})
 \* (every tensor visited also forgets its consumers: `_ops.clear()`)
 Clear(x, t) == LET up == Upstream(x, t) IN
-  Collect([x EXCEPT !.ten = [u \in Ten |-> IF u \in up THEN [@[u] EXCEPT !.creator = 0] ELSE @[u]],
+  Collect([x EXCEPT !.ten = [u \in Ten |-> IF u \in up THEN [@[u] EXCEPT !.creator = 0]
+                                            ELSE IF @[u].alive /\ @[u].creator # 0 /\ x.op[@[u].creator].alive
+                                                    /\ \E i \in 1..Len(x.op[@[u].creator].vars) : x.op[@[u].creator].vars[i] \in up
+                                                 THEN [@[u] EXCEPT !.reg = FALSE] ELSE @[u]],
                     !.op = [o \in Ops |-> IF @[o].alive
                                           THEN [@[o] EXCEPT !.unreg = @ \cup (up \cap {x.op[o].vars[i] : i \in 1..Len(x.op[o].vars)})]
                                           ELSE @[o]]])
@@ -267,6 +377,7 @@ Apply(x, e) ==
     [] e.k = "op"     -> DoOp(x, e.ins)
     [] e.k = "opout"  -> DoOpOut(x, e.ins, e.out)
     [] e.k = "inplace" -> InPlace(x, e.t, e.val)
+    [] e.k = "inplacefam" -> InPlaceFam(x, e.t, e.val)
     [] e.k = "view"   -> DoView(x, e.t)
     [] e.k = "fail"   -> FailOp(x, e.ins)
     [] e.k = "clear"  -> Clear(x, e.t)
@@ -297,6 +408,14 @@ Stmts(x) ==
           {[k |-> "inplace", t |-> t, val |-> p] :
              t \in {u \in HeldT(x) : x.arr[x.ten[u].arr].owner = 0 /\ x.ten[u].base = 0
                                        /\ ~\E v \in Ten : x.ten[v].alive /\ x.ten[v].base = u},
+             p \in Operands(x)} ELSE {})
+  \cup (IF "inplacefam" \in Alphabet THEN
+          {[k |-> "inplacefam", t |-> t, val |-> p] :
+             t \in {u \in HeldT(x) : LET b == IF x.ten[u].base = 0 \/ x.ten[u].creator = 0 THEN u ELSE x.ten[u].base IN
+                                      /\ x.ten[b].alive /\ x.ten[b].base = 0 /\ x.arr[x.ten[b].arr].owner = 0
+                                      /\ (u = b \/ u \in Children(x, b)) /\ FamilyOK(x, b)
+                                      /\ Room(x, 3 + Cardinality(Children(x, b)), 4 + Cardinality(Children(x, b)),
+                                              2 + Cardinality(Children(x, b)))},
              p \in Operands(x)} ELSE {})
   \cup (IF "view" \in Alphabet /\ Room(x, 1, 1, 1) THEN {[k |-> "view", t |-> t] : t \in HeldT(x)} ELSE {})
   \cup (IF "fail" \in Alphabet /\ Room(x, 0, 2, 0) THEN
